@@ -20,6 +20,13 @@
 // replaced by U+FFFD; same details (proto.Equal); handler nil => client nil;
 // handler non-OK => client error non-nil.
 //
+// R2 note: a status whose message is not valid UTF-8 cannot be marshalled into
+// grpc-status-details-bin (google.rpc.Status.message is a proto3 string); grpc-go
+// documents and pins "the details are dropped" for that combination
+// (test/end2end_test.go TestStatusInvalidUTF8Details), so for invalid-UTF-8
+// messages "no details at all" is accepted next to "the same details"; code and
+// message are still judged.
+//
 // R2 note: "invalid UTF-8 replaced by U+FFFD" does not say whether a run of
 // invalid bytes becomes one or several U+FFFD; both the per-byte (Go `range`)
 // and the per-run (strings.ToValidUTF8) replacement are accepted.
@@ -47,6 +54,7 @@ import (
 	"google.golang.org/grpc"
 	"google.golang.org/grpc/codes"
 	"google.golang.org/grpc/credentials/insecure"
+	"google.golang.org/grpc/grpclog"
 	"google.golang.org/grpc/metadata"
 	"google.golang.org/grpc/status"
 	"google.golang.org/grpc/verif/vlib"
@@ -54,6 +62,11 @@ import (
 	"google.golang.org/protobuf/proto"
 	"google.golang.org/protobuf/types/known/anypb"
 )
+
+func init() {
+	// the transport logs every status it cannot marshal at ERROR level; keep the check's output readable
+	grpclog.SetLoggerV2(grpclog.NewLoggerV2(io.Discard, io.Discard, io.Discard))
+}
 
 // ---------- plans ----------
 
@@ -77,8 +90,10 @@ type plan struct {
 
 func genCode(rng *rand.Rand, i int) uint32 {
 	switch (i + rng.Intn(2)) % 6 {
-	case 0, 1:
+	case 0:
 		return uint32(rng.Intn(17))
+	case 1:
+		return vlib.Pick(rng, uint32(0), 0, 16, uint32(rng.Intn(17)))
 	case 2:
 		return uint32(17 + rng.Intn(84))
 	case 3:
@@ -179,7 +194,8 @@ func genDetails(rng *rand.Rand, i int) []detail {
 
 func genPlan(rng *rand.Rand, i int, fam string) plan {
 	p := plan{Kind: vlib.Pick(rng, "unary", "stream")}
-	if fam == "huge-code" {
+	if fam == "huge-code" || fam != "e2e" && rng.Intn(25) == 0 {
+		// outside huge-code: a few codes >= 2^31 on the wire-level families, to see which side fails (F6)
 		p.Code = genHugeCode(rng)
 	} else {
 		p.Code = genCode(rng, i)
@@ -450,13 +466,14 @@ func judgeClient(res *result, where string, i int, p plan, err error) {
 		bad = true
 		res.v("message-changed", "%s: client observed message %q, want %q (invalid bytes -> U+FFFD)", pre, clip(st.Message()), clip(perByteFFFD(string(p.Msg))))
 	}
-	if !detailsEqual(st.Proto().GetDetails(), p.Details) {
+	if invalidMsg && len(p.Details) > 0 && len(st.Proto().GetDetails()) == 0 {
+		// R2: google.rpc.Status.message is a proto3 string, so a status whose message is not valid
+		// UTF-8 cannot be marshalled into grpc-status-details-bin; grpc-go ships "details are dropped"
+		// for that combination and pins it in test/end2end_test.go TestStatusInvalidUTF8Details.
+		res.counters["r2_details_dropped_because_message_invalid_utf8"]++
+	} else if !detailsEqual(st.Proto().GetDetails(), p.Details) {
 		bad = true
-		key := "details-changed"
-		if invalidMsg && len(p.Details) > 0 && len(st.Proto().GetDetails()) == 0 {
-			key = "details-dropped-when-message-invalid-utf8"
-		}
-		res.v(key, "%s: client observed %d details, want %d (equal element-wise)", pre, len(st.Proto().GetDetails()), len(p.Details))
+		res.v("details-changed", "%s: client observed %d details, want %d (equal element-wise)", pre, len(st.Proto().GetDetails()), len(p.Details))
 	}
 	if !bad {
 		res.counters["non_ok_statuses_identical_at_client"]++
@@ -582,6 +599,10 @@ func runServerEncode(plans []plan) *result {
 	}
 	for i, p := range plans {
 		pre := fmt.Sprintf("%s rpc %d [%s]", fam, i, p.describe())
+		if p.Code == 0 {
+			// status.Err() of an OK status is nil: the handler returns nil and the wire carries a bare OK
+			p.Msg, p.Details = nil, nil
+		}
 		tr := trailers[uint32(1+2*i)]
 		if tr == nil {
 			res.v("no-trailers-on-wire", "%s: the server wrote no END_STREAM HEADERS for the stream", pre)
@@ -624,13 +645,11 @@ func runServerEncode(plans []plan) *result {
 			var sp spb.Status
 			raw, err := b64any(wDet)
 			switch {
+			case nDet == 0 && !utf8.Valid(p.Msg):
+				res.counters["r2_details_dropped_because_message_invalid_utf8"]++ // see judgeClient
 			case nDet != 1:
 				bad = true
-				key := "wire-details-missing"
-				if !utf8.Valid(p.Msg) && nDet == 0 {
-					key = "details-dropped-when-message-invalid-utf8"
-				}
-				res.v(key, "%s: %d grpc-status-details-bin fields on the wire, want 1 (status has %d details)", pre, nDet, len(p.Details))
+				res.v("wire-details-missing", "%s: %d grpc-status-details-bin fields on the wire, want 1 (status has %d details)", pre, nDet, len(p.Details))
 			case err != nil:
 				bad = true
 				res.v("wire-details-not-base64", "%s: grpc-status-details-bin %q: %v", pre, clip(wDet), err)
